@@ -482,7 +482,25 @@ def _device_reports(run):
             m = r_[2]
             own = r_[0]
             from .common import canon_text
-            rv = {_strip(canon_text(run, m, dc, x, locals_=set(m.params))) for x in return_values(A, m, dc, PVd)}
+            from sa.canon import canon_sums as _csm
+
+            def _cf(x, m=m, dc=dc):
+                # indices written with the offset table (self.OFF.OP, self.OFF.DATA + 1) are the numbers they stand for
+                try:
+                    e_ = ast.parse(x, mode="eval").body
+                except SyntaxError:
+                    return _strip(x)
+
+                class _Idx(ast.NodeTransformer):
+                    def visit_Subscript(s_, node):
+                        s_.generic_visit(node)
+                        if not isinstance(node.slice, (ast.Slice, ast.Constant)):
+                            ok_, v_ = try_fold(P, node.slice, m, dc)
+                            if ok_ and isinstance(unwrap(v_), int):
+                                node.slice = ast.Constant(value=unwrap(v_))
+                        return node
+                return _strip(norm(_Idx().visit(e_)))
+            rv = {_cf(_strip(canon_text(run, m, dc, x, locals_=set(m.params)))) for x in return_values(A, m, dc, PVd)}
             if mname == "get_retries":
                 wv = {w for w in wv if ("SGX_RETRIES" in w) == (own.name == "HSM2DongleSGX")}
             okv = rv == {_strip(canon_text(run, m, dc, w)) for w in wv}
@@ -649,7 +667,7 @@ def _check_constants(run, L):
             subs = sorted(set(unwrap(P.const_eval(n.slice, fn.module, cls=dc))
                               for n in A.own_nodes(fn)
                               if isinstance(n, ast.Subscript) and isinstance(n.ctx, ast.Load)
-                              and isinstance(n.slice, (ast.Constant, ast.Attribute, ast.Name))
+                              and isinstance(n.slice, (ast.Constant, ast.Attribute, ast.Name, ast.BinOp))
                               and _foldable(P, n.slice, fn, dc)))
             run.check("R4", subs == idxs, f"{dc.name}.{mname} reads reply bytes {idxs}",
                       key=f"{fn.qualname}|offsets", where=fn.loc(),
